@@ -136,8 +136,15 @@ class CallMixin:
         if isinstance(fn, Term) and fn.op == "attrgetter" and len(args) == 1 and not kwargs:
             v = args[0]
             for part in str(fn.args[0]).split("."):        # operator.attrgetter("a.b")(x) is x.a.b
-                v = self.getattr(v, part, node)
+                if isinstance(v, (Sym, Term)) and self.kind_of(v) in (None, "Schema"):
+                    r_ = self.x_getattr([v, Const(part)], {}, node)      # the same lookup as getattr(x, "a")
+                    v = r_ if r_ is not None else self.getattr(v, part, node)
+                else:
+                    v = self.getattr(v, part, node)
             return v
+        if isinstance(fn, Term) and fn.op == "methodcaller" and len(args) == 1 and not kwargs:
+            # operator.methodcaller("name", *a)(x) is x.name(*a)
+            return self._invoke(self.getattr(args[0], str(fn.args[0]), node), list(fn.args[1:]), {}, node)
         if isinstance(fn, Term) and fn.op == "itemgetter" and len(args) == 1 and not kwargs:
             return self.getitem(args[0], fn.args[0], node)
         if isinstance(fn, Term) and fn.op == "attr":
@@ -188,6 +195,9 @@ class CallMixin:
     # ------------------------------------------------------------------ d42 functions
     def _call_func(self, fv: FuncV, args: List[Any], kwargs: Dict[str, V], node: Any) -> V:
         func = fv.func
+        pre = getattr(fv, "pre_args", None)
+        if pre:
+            args = list(pre) + list(args)           # functools.partialmethod(f, *pre)
         if isinstance(func, ast.Lambda):
             fr = Frame(None, fv.closure.module, {}, fv.closure.cls, fv.closure.self_val, closure=fv.closure)
             self._bind(func.args, args, kwargs, fr, None, node)
@@ -674,6 +684,9 @@ class CallMixin:
         return DictV([(Const(k), v) for k, v in kwargs.items()])
 
     def x_getattr(self, args: List[V], kwargs: Dict[str, V], node: Any) -> Optional[V]:
+        if len(args) >= 2 and isinstance(args[1], StrV) and all(isinstance(p, str) for p in args[1].pieces):
+            # getattr(self, f"_Cls__declare_{name}") with a known `name`: the f-string is a constant
+            args = [args[0], Const("".join(args[1].pieces))] + list(args[2:])
         if len(args) >= 2 and isinstance(args[1], Const) and isinstance(args[1].value, str):
             recv, name = args[0], args[1].value
             if isinstance(recv, (SchemaV, Inst)) and recv.cls is not None:
@@ -716,6 +729,15 @@ class CallMixin:
                     return src.items[0]
                 if len(args) > 1:
                     return args[1]
+            # next((x for x in S if c), DEFAULT) over a source that cannot be enumerated: DEFAULT exactly when no member of S
+            # satisfies c - the same universal fact the search loop `for x in S: if c: ...` leaves behind
+            if len(args) == 2 and isinstance(src, Term) and src.op == "gencomp" and len(src.args) == 3:
+                conds = src.args[2]
+                cl = list(conds.items) if hasattr(conds, "items") else (list(conds) if isinstance(conds, (tuple, list)) else [])
+                if len(cl) == 1 and isinstance(cl[0], V):
+                    anyt = Term("any", (Term("gencomp", (cl[0], src.args[1]), kind="generator", node=node),), kind="bool", node=node)
+                    if not self.decide(anyt, node):
+                        return args[1]
         return None
 
     def x_repr(self, args: List[V], kwargs: Dict[str, V], node: Any) -> Optional[V]:
@@ -837,6 +859,12 @@ class CallMixin:
             return Term("attrgetter", (args[0].value,), kind="function", node=node)
         return None
 
+    def x_operator_methodcaller(self, args: List[V], kwargs: Dict[str, V], node: Any) -> Optional[V]:
+        if args and isinstance(args[0], Const) and isinstance(args[0].value, str) and not kwargs:
+            t = Term("methodcaller", (args[0].value,) + tuple(args[1:]), kind="function", node=node)
+            return t
+        return None
+
     def x_operator_itemgetter(self, args: List[V], kwargs: Dict[str, V], node: Any) -> Optional[V]:
         if len(args) == 1:
             return Term("itemgetter", (args[0],), kind="function", node=node)
@@ -885,7 +913,42 @@ class CallMixin:
             return d
         return None
 
+    def x_filter(self, args: List[V], kwargs: Dict[str, V], node: Any) -> Optional[V]:
+        # filter(f, S) with a program-defined predicate is the generator expression (x for x in S if f(x))
+        if len(args) == 2 and isinstance(args[0], FuncV) and not kwargs:
+            src = args[1]
+            if not self._enumerable(src):                      # type: ignore[attr-defined]
+                elem = self.generic_element(src, node)          # type: ignore[attr-defined]
+                cond = self._invoke(args[0], [elem], {}, node)
+                t_ = Term("gencomp", (elem, Term("src", (src,)), TupleV([cond])), kind="generator", node=node)
+                t_.elem_kind = self.kind_of(elem)               # type: ignore[attr-defined]
+                return t_
+        return None
+
+    def x_itertools_filterfalse(self, args: List[V], kwargs: Dict[str, V], node: Any) -> Optional[V]:
+        # filterfalse(f, S) is (x for x in S if not f(x)); `c.__contains__` as the predicate is `x in c`
+        if len(args) == 2 and not kwargs and not self._enumerable(args[1]):       # type: ignore[attr-defined]
+            f, src = args
+            elem = self.generic_element(src, node)                                  # type: ignore[attr-defined]
+            if isinstance(f, FuncV):
+                c0 = self._invoke(f, [elem], {}, node)
+            elif isinstance(f, Term) and f.op in ("bound", "attr") and len(f.args) == 2 and f.args[1] == "__contains__":
+                c0 = self.compare("in", elem, f.args[0], node)                      # type: ignore[attr-defined]
+            else:
+                return None
+            t0 = self.truth(c0)
+            cond = Const(not t0) if t0 is not None else Term("not", (c0,), kind="bool", node=node)
+            t_ = Term("gencomp", (elem, Term("src", (src,)), TupleV([cond])), kind="generator", node=node)
+            t_.elem_kind = self.kind_of(elem)                                       # type: ignore[attr-defined]
+            return t_
+        return None
+
     def x_map(self, args: List[V], kwargs: Dict[str, V], node: Any) -> Optional[V]:
+        if len(args) == 2 and isinstance(args[0], Term) and args[0].op in ("methodcaller", "attrgetter", "itemgetter"):
+            src = self._unwrap1(args[1])
+            if isinstance(src, (ListV, TupleV)) and src.concrete():
+                # consumed by iteration only: a list stands for the iterator (the callable has no effect of its own)
+                return ListV([self._invoke(args[0], [x], {}, node) for x in src.items])
         return Term("map", tuple(args), kind="iterator", node=node)
 
     # ------------------------------------------------------------------ methods of abstract containers
